@@ -250,14 +250,14 @@ class TimeDependentLinearPDE(LinearPDE):
         u[:, 0] = self.initial_condition
         info = None # stays None if no linear system is solved (forward Euler, or no step to take)
 
-        if self.method == 'forward_euler':
+        if self.method.lower() == 'forward_euler':
             for idx, t in enumerate(self.time_steps[:-1]):
                 dt = self.time_steps[idx+1] - t
                 self.assemble_step(t)
                 u_pre = u[:, idx]
                 u[:, idx+1] = (dt*self.diff_op + np.eye(len(u_pre)))@u_pre + dt*self.rhs  # from u at time t, gives u at t+dt
 
-        if self.method == 'backward_euler':
+        if self.method.lower() == 'backward_euler':
             for idx, t in enumerate(self.time_steps[1:]):
                 dt = t - self.time_steps[idx]
                 self.assemble_step(t)
